@@ -683,6 +683,129 @@ theorem expireAccess_eq (fuel : Nat) (sd : Go.SessData) :
   unfold Code.SessionData_expireAccessTokenChunks
   exact key _ _ (fun _ => rfl) (by intro i sd; simp [expireBody])
 
+/-! ### what `expire…Chunks` leaves behind: every chunk session the request carried is emptied and marked for deletion -/
+theorem expireBody_next (base : Go.Str) (k : Int) (sd : Go.SessData)
+    (h0 : Go.sessIsNew (Go.storeGet sd (Go.chunkName base k)).2 (Go.chunkName base k) = false) :
+    expireBody base (k, sd) = .next (k + 1, Go.sessClearValues (Go.sessSetMaxAge (Go.storeGet sd (Go.chunkName base k)).2 (Go.chunkName base k) (-1)) (Go.chunkName base k)) := by
+  have hp := storeGet_ptr sd (Go.chunkName base k)
+  simp [expireBody, hp, h0]
+
+theorem expireBody_brk (base : Go.Str) (k : Int) (sd : Go.SessData)
+    (h0 : Go.sessIsNew (Go.storeGet sd (Go.chunkName base k)).2 (Go.chunkName base k) = true) :
+    expireBody base (k, sd) = .brk (k, (Go.storeGet sd (Go.chunkName base k)).2) := by
+  have hp := storeGet_ptr sd (Go.chunkName base k)
+  simp [expireBody, hp, h0]
+
+/-- one round leaves the other chunk sessions what they were -/
+theorem round_regGet_other (base : Go.Str) (k i : Int) (sd : Go.SessData) (hi : i ≠ k) :
+    Go.regGet (Go.sessClearValues (Go.sessSetMaxAge (Go.storeGet sd (Go.chunkName base k)).2 (Go.chunkName base k) (-1)) (Go.chunkName base k)).reg (Go.chunkName base i) =
+      Go.regGet sd.reg (Go.chunkName base i) := by
+  have hne : Go.chunkName base i ≠ Go.chunkName base k := fun h => hi (chunkName_inj _ _ _ h)
+  show Go.regGet (Go.regSet (Go.regSet (Go.storeGet sd (Go.chunkName base k)).2.reg _ _) _ _) _ = _
+  rw [regGet_regSet_ne _ _ _ _ hne, regGet_regSet_ne _ _ _ _ hne]
+  exact storeGet_regGet_ne sd _ _ hne
+
+theorem storeGet_regHas_other (sd : Go.SessData) (n m : Go.Str) (h : m ≠ n) : Go.regHas (Go.storeGet sd n).2.reg m = Go.regHas sd.reg m := by
+  unfold Go.storeGet; split
+  · rfl
+  · show Go.regHas ((n, _) :: sd.reg) m = _
+    unfold Go.regHas
+    have : ((n, (match sd.cookie n with
+      | some vals => (⟨vals, sd.maxAgeDefault, false⟩ : Go.GSess)
+      | none => ⟨[], sd.maxAgeDefault, true⟩)).1 == m) = false := beq_false_of_ne (Ne.symm h)
+    rw [List.any_cons, this, Bool.false_or]
+
+theorem round_chunkIsNew_other (base : Go.Str) (k i : Int) (sd : Go.SessData) (hi : i ≠ k) :
+    chunkIsNew base (Go.sessClearValues (Go.sessSetMaxAge (Go.storeGet sd (Go.chunkName base k)).2 (Go.chunkName base k) (-1)) (Go.chunkName base k)) i = chunkIsNew base sd i := by
+  have hne : Go.chunkName base i ≠ Go.chunkName base k := fun h => hi (chunkName_inj _ _ _ h)
+  obtain ⟨r, hr⟩ := storeGet_reg_only sd (Go.chunkName base k)
+  apply chunkIsNew_frame_other
+  · show (Go.storeGet sd (Go.chunkName base k)).2.cookie = _; rw [hr]
+  · show (Go.storeGet sd (Go.chunkName base k)).2.maxAgeDefault = _; rw [hr]
+  · exact round_regGet_other base k i sd hi
+  · show Go.regHas (Go.regSet (Go.regSet (Go.storeGet sd (Go.chunkName base k)).2.reg _ _) _ _) _ = _
+    rw [regHas_regSet_ne _ _ _ _ hne, regHas_regSet_ne _ _ _ _ hne]
+    exact storeGet_regHas_other sd _ _ hne
+
+/-- the loop from index `k` on does not touch the sessions of the indices below `k` -/
+theorem expireLoop_below (base : Go.Str) (cond : Int × Go.SessData → Bool) :
+    ∀ (fuel : Nat) (k : Int) (sd : Go.SessData) (m : Int) (sd' : Go.SessData),
+      Go.forWhile fuel (k, sd) cond (expireBody base) = some (.next (m, sd')) →
+      ∀ i : Int, i < k → Go.regGet sd'.reg (Go.chunkName base i) = Go.regGet sd.reg (Go.chunkName base i) := by
+  intro fuel
+  induction fuel with
+  | zero => intro k sd m sd' h; simp [Go.forWhile] at h
+  | succ f ih =>
+    intro k sd m sd' h i hi
+    have hne : Go.chunkName base i ≠ Go.chunkName base k := fun e => by have := chunkName_inj _ _ _ e; omega
+    unfold Go.forWhile at h
+    by_cases hc : cond (k, sd) = true
+    · simp only [hc, if_true] at h
+      by_cases hnew : Go.sessIsNew (Go.storeGet sd (Go.chunkName base k)).2 (Go.chunkName base k) = true
+      · rw [expireBody_brk base k sd hnew] at h
+        simp only [Option.some.injEq, Go.Ctl.next.injEq, Prod.mk.injEq] at h
+        obtain ⟨_, rfl⟩ := h
+        exact storeGet_regGet_ne sd _ _ hne
+      · have hf : Go.sessIsNew (Go.storeGet sd (Go.chunkName base k)).2 (Go.chunkName base k) = false := by simpa using hnew
+        rw [expireBody_next base k sd hf] at h
+        exact (ih (k + 1) _ m sd' h i (by omega)).trans (round_regGet_other base k i sd (by omega))
+    · simp only [hc, Bool.false_eq_true, if_false, Option.some.injEq, Go.Ctl.next.injEq, Prod.mk.injEq] at h
+      obtain ⟨_, rfl⟩ := h
+      rfl
+
+/-- after `expire…Chunks(nil)`: every chunk session of this token that the request carried (indices `k … k+n−1`) has no values left
+    and `MaxAge = −1`, i.e. the next `Save` of it deletes the cookie -/
+theorem expireLoop_post (base : Go.Str) (cond : Int × Go.SessData → Bool) (hc : ∀ a, cond a = true) :
+    ∀ (n : Nat) (k : Int) (sd : Go.SessData) (fuel : Nat),
+      (∀ j : Nat, j < n → chunkIsNew base sd (k + j) = false) → chunkIsNew base sd (k + n) = true → n < fuel →
+      ∃ sd', Go.forWhile fuel (k, sd) cond (expireBody base) = some (.next (k + n, sd')) ∧
+        ∀ j : Nat, j < n → (Go.regGet sd'.reg (Go.chunkName base (k + j))).Values = [] ∧ (Go.regGet sd'.reg (Go.chunkName base (k + j))).MaxAge = -1 := by
+  intro n
+  induction n with
+  | zero =>
+    intro k sd fuel _ hnew hf
+    obtain ⟨sd', h, _⟩ := expireLoop base cond hc 0 k sd fuel (fun j hj => by omega) hnew hf
+    exact ⟨sd', h, fun j hj => by omega⟩
+  | succ n ih =>
+    intro k sd fuel hold hnew hf
+    obtain ⟨f, rfl⟩ : ∃ f, fuel = f + 1 := ⟨fuel - 1, by omega⟩
+    have h0 : Go.sessIsNew (Go.storeGet sd (Go.chunkName base k)).2 (Go.chunkName base k) = false := by
+      simpa [chunkIsNew] using hold 0 (by omega)
+    obtain ⟨sd', hl, hpost⟩ := ih (k + 1) (Go.sessClearValues (Go.sessSetMaxAge (Go.storeGet sd (Go.chunkName base k)).2 (Go.chunkName base k) (-1)) (Go.chunkName base k)) f
+      (fun j hj => by
+        rw [round_chunkIsNew_other base k _ sd (by omega)]
+        have := hold (j + 1) (by omega)
+        have e : k + ((j + 1 : Nat) : Int) = k + 1 + (j : Int) := by omega
+        rwa [e] at this)
+      (by
+        rw [round_chunkIsNew_other base k _ sd (by omega)]
+        have e : k + ((n + 1 : Nat) : Int) = k + 1 + (n : Int) := by omega
+        rwa [e] at hnew)
+      (by omega)
+    have e : k + ((n + 1 : Nat) : Int) = k + 1 + (n : Int) := by omega
+    refine ⟨sd', ?_, ?_⟩
+    · unfold Go.forWhile
+      rw [hc, if_pos rfl, expireBody_next base k sd h0, e]
+      exact hl
+    · intro j hj
+      cases j with
+      | zero =>
+        have hb := expireLoop_below base cond f (k + 1) _ _ sd' hl k (by omega)
+        have e0 : k + ((0 : Nat) : Int) = k := by omega
+        rw [e0, hb]
+        constructor
+        · show (Go.regGet (Go.regSet (Go.regSet (Go.storeGet sd (Go.chunkName base k)).2.reg _ _) _ _) _).Values = []
+          rw [regGet_regSet_same]
+        · show (Go.regGet (Go.regSet (Go.regSet (Go.storeGet sd (Go.chunkName base k)).2.reg _ _) _ _) _).MaxAge = -1
+          rw [regGet_regSet_same]
+          show (Go.regGet (Go.regSet (Go.storeGet sd (Go.chunkName base k)).2.reg _ _) _).MaxAge = -1
+          rw [regGet_regSet_same]
+      | succ j =>
+        have := hpost j (by omega)
+        have e2 : k + ((j + 1 : Nat) : Int) = k + 1 + (j : Int) := by omega
+        rw [e2]
+        exact this
+
 /-! ### the round trip -/
 /-- **What `SetAccessToken` leaves in memory is what `GetAccessToken` reads.**  For a token of any size — stored whole, or cut
     into any number of chunk sessions — given only that `decompressToken` undoes `compressToken` on it and that the compressed
